@@ -134,6 +134,7 @@ type SpecFun struct {
 	Src    string
 	Expr   ast.Expr
 	Lemma  bool // proved (universally closed over the integers) rather than assumed
+	Pkg    string // package path of the contract file that defines it ("" for spec files): type names in the body resolve there
 }
 
 var tagRe = regexp.MustCompile(`^([a-z]+)(?:\[([A-Za-z0-9 ,]+)\])?\s*(.*)$`)
@@ -660,6 +661,7 @@ func (cs *ContractSet) parseLines(lines []string, file, pkgPath, schemaDir strin
 			}
 			sf.Expr = e
 			sf.Lemma = isLemma
+			sf.Pkg = pkgPath
 			cs.SpecFuns[sf.Name] = sf
 			cur = nil
 			continue
